@@ -170,7 +170,7 @@ def scenarios(ctx):
 def run(ctx):
     ctx.level = "model_checking"
     # E1: shutdown by the platform driver and by resets in spec/MC_Rapid.tla; SHUTDOWN only to its subscribers
-    mcrapid.check(ctx, ['EventsOnlyToSubscribers', 'NoCrash'])
+    mcrapid.check(ctx, ['EventsOnlyToSubscribers', 'FailResetShutdownOnlyToSubscribers', 'NoCrash'])
     ctx.assumptions += sc.ASSUME + ["time bounds are one-sided with slack: lower bounds -3 ms, upper bounds +1500 ms"]
     sc.run_families(ctx, scenarios(ctx), "shutdown")
     ctx.coverage["exhaustive"] = not ctx.quick
